@@ -78,6 +78,9 @@ def values_for(rng, name, shape, spread):
     if spread == "lifted":
         # a detector pedestal: the smallest count is a few units above zero (unsigned) / above the dtype minimum
         lo, hi = (lo if dt.kind == "f" else max(lo, 0)) + int(rng.integers(1, 40)), min(hi, 4000 if dt.itemsize > 1 else hi)
+    if spread == "min1":
+        # counts that start at exactly 1 (no empty pixel): the smallest value for which log(x - min + 1) = log(x)
+        lo, hi = 1, min(hi, 4000 if dt.itemsize > 1 else hi)
     if spread == "pedestal":
         # small signal on a large constant level: exactly representable in the integer dtype and in float64, but not
         # in float32 -- the float64 route and the integer route must still agree
@@ -167,7 +170,7 @@ def search(ctx, boost=1, focus=()):
     reps = (4 if ctx.tier == "thorough" else 1) * boost
     for rep in range(reps):
         for k, name in enumerate(DTYPES):
-            for spread in ("full", "narrow", "lifted") + (("pedestal",) if (np.dtype(name).kind in "iu" and np.dtype(name).itemsize >= 4) else ()):
+            for spread in ("full", "narrow", "lifted") + (("min1",) if np.dtype(name).kind in "iu" else ()) + (("pedestal",) if (np.dtype(name).kind in "iu" and np.dtype(name).itemsize >= 4) else ()):
                 pat = impl.pattern_params(rng, kinds=("radial_gradient", "background_subtraction", "circular"), rmin=2, rmax=4)
                 c = int(np.ceil(pat["search"]))
                 shape = [int(rng.integers(2 * c + 8, 40)), int(rng.integers(2 * c + 8, 40))]
